@@ -82,7 +82,7 @@ impl Property for C14 {
         vec!["in an inherited method `this` is the object that holds the method (delegation; the in-repo dispatch.fml depends on it); fields are looked up only in the object itself".into()]
     }
     fn random_cases(&self, tier: Tier) -> u64 {
-        tier.pick(48_000, 3_000_000)
+        tier.pick(120_000, 4_000_000)
     }
     fn fixed_parts(&self, ctx: &mut Ctx) -> Vec<Violation> {
         let mut out = vec![];
